@@ -132,19 +132,6 @@ OnEvClose(m, ev) ==
                 !.causes = Put(@, pk, IF marks = {} \/ cq = <<>> THEN cq ELSE Tail(cq)), !.disturbed = IF m.closing THEN @ ELSE @ \cup {ev.ep},
                 !.closeTimes = Append(@, [ep |-> ev.ep, inst |-> ev.inst, t |-> ev.t, seq |-> ev.seq, cause |-> ev.cause, closing |-> m.closing])]
 
-\* The node has been idle for a whole interval, its consumer never stopped, no goroutine ever held at a gate: what was fed
-\* to a channel that is still open and never saw a fault, over a transport that does not lose data, has had its chance.
-\* Remembered here, judged at the end (a frame that still arrives later is late, not lost).
-ReliableKinds == {"custom", "tcp_server", "tcp_client"}
-OnQuiesced(m, ev) ==
-  LET judged(pk) == LET insts == {k \in m.opened : k[1] = pk[1] /\ Get(m.instPeer, k, 0) = pk[2]}
-                    IN /\ m.kinds[pk[1] + 1] \in ReliableKinds
-                       /\ pk[1] \notin m.disturbed /\ pk[1] \notin m.faulted
-                       /\ Cardinality(insts) = 1 /\ insts \cap m.closed = {}
-      lost == UNION {{<<pk[1], pk[2], m.pend[pk][i]>> : i \in {j \in 1..Len(m.pend[pk]) : m.pend[pk][j] # -1}} :
-                       pk \in {x \in DOMAIN m.pend : judged(x)}}
-  IN IF m.consumerStopped \/ m.everHeld THEN m ELSE [m EXCEPT !.quietLost = @ \cup lost]
-
 OnEv(m, ev) ==
   CASE ev.type = "open" -> OnEvOpen(m, ev)
     [] ev.type = "frame" -> OnEvFrame(m, ev)
@@ -186,6 +173,21 @@ MayReachWire(m, c, w) ==
 PeerOfEp(m, ep) == LET K == {k \in m.opened : k[1] = ep}
                    IN IF Cardinality(K) = 1 THEN Get(m.instPeer, CHOOSE k \in K : TRUE, 0) ELSE 0
 MayReach(m, c, ep) == MayReachWire(m, c, <<ep, PeerOfEp(m, ep)>>)
+
+\* The node has been idle for a whole interval, its consumer never stopped, no goroutine ever held at a gate: what was fed
+\* to a channel that is still open and never saw a fault, over a transport that does not lose data, has had its chance.
+\* Remembered here, judged at the end (a frame that still arrives later is late, not lost).
+ReliableKinds == {"custom", "tcp_server", "tcp_client"}
+OnQuiesced(m, ev) ==
+  LET judged(pk) == LET insts == {k \in m.opened : k[1] = pk[1] /\ Get(m.instPeer, k, 0) = pk[2]}
+                    IN /\ m.kinds[pk[1] + 1] \in ReliableKinds
+                       \* a server endpoint has one channel per peer: what happened to another peer's connection does not matter
+                       /\ (Coexisting(m, pk[1]) \/ (pk[1] \notin m.disturbed /\ pk[1] \notin m.faulted))
+                       /\ \A i \in 1..Len(m.pend[pk]) : m.pend[pk][i] # -1
+                       /\ Cardinality(insts) = 1 /\ insts \cap m.closed = {}
+      lost == UNION {{<<pk[1], pk[2], m.pend[pk][i]>> : i \in {j \in 1..Len(m.pend[pk]) : m.pend[pk][j] # -1}} :
+                       pk \in {x \in DOMAIN m.pend : judged(x)}}
+  IN IF m.consumerStopped \/ m.everHeld THEN m ELSE [m EXCEPT !.quietLost = @ \cup lost]
 
 Le4(p, o) == p[o + 1] + 256 * p[o + 2] + 65536 * p[o + 3]     \* 24 bits are enough for tags
 
